@@ -4,6 +4,7 @@ import (
 	"context"
 	"time"
 
+	tls "github.com/refraction-networking/utls"
 	quic "github.com/refraction-networking/uquic"
 	"github.com/refraction-networking/uquic/internal/verifmc/wireobs"
 )
@@ -20,10 +21,15 @@ type Flight struct {
 // CaptureFlight dials towards an address nobody listens on and records everything the
 // client sends within `wait` of virtual time.
 func CaptureFlight(w *World, d Dialer, conf *quic.Config, wait time.Duration) Flight {
+	return CaptureFlightTLS(w, d, w.ClientTLS(), conf, wait)
+}
+
+// CaptureFlightTLS is CaptureFlight with the caller's tls.Config (e.g. another ServerName).
+func CaptureFlightTLS(w *World, d Dialer, tlsConf *tls.Config, conf *quic.Config, wait time.Duration) Flight {
 	ctx, cancel := context.WithTimeout(context.Background(), wait)
 	defer cancel()
 	before := len(w.Router.Log())
-	conn, err := d.Dial(ctx, w.ServerAddr, w.ClientTLS(), conf)
+	conn, err := d.Dial(ctx, w.ServerAddr, tlsConf, conf)
 	if conn != nil {
 		conn.CloseWithError(0, "")
 	}
